@@ -27,7 +27,7 @@ DECIDING = ['jacobian/to_sphere_quotient', 'jacobian/to_sphere_coordinate', 'jac
             'jacobian/to_discrete_probability_sphere', 'jacobian/to_trace1_psd_cholesky', 'jacobian/to_trace1_psd_ensemble', 'jacobian/to_symmetric_matrix',
             'jacobian/to_special_orthogonal_exp', 'jacobian/to_special_orthogonal_cayley', 'jacobian/to_stiefel_polar', 'jacobian/to_stiefel_qr',
             'jacobian/to_stiefel_choleskyL', 'jacobian/to_stiefel_euler', 'jacobian/to_positive_real_softplus', 'jacobian/to_positive_real_exp',
-            'jacobian/to_open_interval', 'jacobian/Stiefel.forward', 'verdict/configuration']
+            'jacobian/to_open_interval', 'jacobian/Stiefel.forward', 'jacobian/DiscreteProbability.forward', 'verdict/configuration']
 
 
 def shards(tier, seed):
@@ -68,6 +68,8 @@ def expected_dim(name, n, args):
         return (d * r - r * (r + 1) // 2) if args['is_real'] else (2 * d * r - r * r)
     if name in ('to_stiefel_choleskyL', 'to_stiefel_euler'):
         return n  # minimal charts: parameter count (equals the Stiefel dimension in the real case and with phases)
+    if name == 'DiscreteProbability.forward/weighted':
+        return n - 1
     if name == 'Stiefel.forward/so':
         d, r = args['dim'], args['rank']
         return (d * r - r * (r + 1) // 2) if args['is_real'] else min(2 * d * r - r * r, d * d - 1)
@@ -115,7 +117,7 @@ class Probe:
         self._count += 1
         if self._count % self.sample_every:
             return
-        pname = 'Stiefel.forward' if name.startswith('Stiefel.forward') else name
+        pname = 'Stiefel.forward' if name.startswith('Stiefel.forward') else name.split('/')[0]
         ctx.hit(f'jacobian/{pname}')
         try:
             with torch.enable_grad():
@@ -254,6 +256,21 @@ class Probe:
 
         ctx.attach(S.Stiefel, 'forward', post=post_stiefel_forward, point='Stiefel.forward')
 
+        # weighted simplex: the class form with the optional `weight` (any positive weights: the chart still has rank d-1)
+        def post_prob_forward(c):
+            if c.exc is not None:
+                return
+            m = c.args[0]
+            if m.batch_size is not None or m.theta.dtype != torch.float64 or m.weight_inv is None:
+                return
+
+            def fwd(t):
+                with ctx.quiet():
+                    return torch.func.functional_call(m, {'theta': t}, ())
+            probe.observe('DiscreteProbability.forward/weighted', fwd, m.theta.detach(), {'dim': m.dim, 'method': m.method})
+
+        ctx.attach(I.DiscreteProbability, 'forward', post=post_prob_forward, point='DiscreteProbability.forward')
+
 
 def draws(ctx, n, ndraw):
     out = []
@@ -299,6 +316,21 @@ def run(ctx, shard):
                 go('to_ball', lambda t, r=is_real: M.to_ball(t, r), n, {'dim': d, 'is_real': is_real})
             go('to_discrete_probability_softmax', M.to_discrete_probability_softmax, d, {'dim': d})
             go('to_discrete_probability_sphere', M.to_discrete_probability_sphere, d, {'dim': d})
+            for me in ('softmax', 'sphere'):
+                for wkind in ('float', 'int-dtype', 'list'):
+                    w = {'float': ctx.rng.uniform(0.5, 3, size=d), 'int-dtype': np.arange(2, d + 2), 'list': np.arange(1, d + 1)}[wkind]
+                    for i in range(ndraw):
+                        ctx.set_case({'module': 'DiscreteProbability', 'dim': d, 'method': me, 'weight': wkind})
+                        with ctx.guard('DiscreteProbability.forward'):
+                            try:
+                                m = M.DiscreteProbability(d, method=me, weight=(w.tolist() if wkind == 'list' else w), dtype=torch.float64)
+                            except (AttributeError, AssertionError, TypeError):
+                                ctx.inconclusive('DiscreteProbability-weight-kind-not-accepted/' + wkind)  # a python list has no .min(): not accepted by the class
+                                break
+                            with torch.no_grad():
+                                m.theta.copy_(torch.tensor(ctx.rng.normal(size=d)))
+                            ctx.case('DiscreteProbability-module', d, me, wkind, to_numpy(m.theta))
+                            m()
     elif kind == 'psd':
         for d in dims:
             for r in range(1, d + 1):
